@@ -249,7 +249,8 @@ def _body_std(cols, nrows, mode):
 
 def _replay_std(cols, nrows, mode):
     def replay(inputs):
-        # the real stack has the real tidytcells: check what does not depend on tidytcells' answers
+        # real pandas; tidytcells (whose answers are outside the claim) is replaced by a recorder so that the documented call
+        # per cell can be observed; a second run with the real tidytcells checks what does not depend on its answers
         import pandas as pd
         from pyrepseq import io
         source_cols = list(cols)
@@ -259,37 +260,64 @@ def _replay_std(cols, nrows, mode):
             source_cols = ["foo"] + source_cols[1:]
         data = {c: [None if inputs.get(f"{c}_{r}_missing") else inputs[f"{c}_{r}"] for r in range(nrows)] for c in source_cols + ["extra"]}
         index = [10 + 3 * r for r in range(nrows)]
-        df = pd.DataFrame(data, index=index, dtype=object)
-        snap = df.copy(deep=True)
-        kw = dict(OPT)
+        opts = dict(OPT)
         for b in ("tcr_enforce_functional", "strict_cdr3_standardization", "suppress_warnings"):
-            kw[b] = bool(inputs.get(b))
-        kw["suppress_warnings"] = True
-        kw["species"] = "HomoSapiens"
-        if mode == "nostd":
-            kw["standardize"] = False
-        if mapper:
-            kw["col_mapper"] = mapper
-        if mode in ("both", "neither"):
+            opts[b] = bool(inputs.get(b))
+
+        class Rec:
+            def __init__(self, name):
+                self.name = name
+
+            def standardize(self, *a, **kw):
+                return (self.name, a, tuple(sorted(kw.items())))
+
+        class FakeTT:
+            junction, tr, mh, aa = Rec("junction.standardize"), Rec("tr.standardize"), Rec("mh.standardize"), Rec("aa.standardize")
+        for fake in (True, False):
+            df = pd.DataFrame(data, index=index, dtype=object)
+            snap = df.copy(deep=True)
+            kw = dict(opts)
+            if not fake:
+                kw["suppress_warnings"], kw["species"] = True, "HomoSapiens"
+            if mode == "nostd":
+                kw["standardize"] = False
+            if mapper:
+                kw["col_mapper"] = mapper
+            real_tt = io.tt
+            if fake:
+                io.tt = FakeTT
             try:
-                io.standardize_dataframe(df=df if mode == "both" else None, df_old=df if mode == "both" else None, **kw)
-            except ValueError:
-                return True, ""
-            return False, "no ValueError"
-        out = io.standardize_dataframe(df_old=df, **kw) if mode == "df_old" else io.standardize_dataframe(df, **kw)
-        if not df.equals(snap):
-            return False, f"input frame modified: {df!r}"
-        exp_names = [mapper.get(c, c) if mapper else c for c in df.columns]
-        if list(out.columns) != exp_names or list(out.index) != index:
-            return False, f"columns/index changed: {list(out.columns)} {list(out.index)}"
-        if not out["extra"].equals(df["extra"]):
-            return False, "extra column changed"
-        for c_src, c_out in zip(df.columns, exp_names):
-            for r in range(nrows):
-                if pd.isna(df[c_src].iloc[r]) and not pd.isna(out[c_out].iloc[r]):
-                    return False, f"missing cell {c_out}[{r}] became {out[c_out].iloc[r]!r}"
-                if mode == "nostd" and not pd.isna(df[c_src].iloc[r]) and out[c_out].iloc[r] != df[c_src].iloc[r]:
-                    return False, f"cell changed with standardize=False"
+                if mode in ("both", "neither"):
+                    try:
+                        io.standardize_dataframe(df=df if mode == "both" else None, df_old=df if mode == "both" else None, **kw)
+                    except ValueError:
+                        continue
+                    return False, "no ValueError"
+                out = io.standardize_dataframe(df_old=df, **kw) if mode == "df_old" else io.standardize_dataframe(df, **kw)
+            finally:
+                io.tt = real_tt
+            if not df.equals(snap):
+                return False, f"input frame modified: {df!r}"
+            exp_names = [mapper.get(c, c) if mapper else c for c in df.columns]
+            if list(out.columns) != exp_names or list(out.index) != index:
+                return False, f"columns/index changed: {list(out.columns)} {list(out.index)}"
+            if not out["extra"].equals(df["extra"]):
+                return False, "extra column changed"
+            for c_src, c_out in zip(df.columns, exp_names):
+                for r in range(nrows):
+                    cell, got = df[c_src].iloc[r], out[c_out].iloc[r]
+                    if pd.isna(cell):
+                        if not pd.isna(got):
+                            return False, f"missing cell {c_out}[{r}] became {got!r}"
+                        continue
+                    exp = _expected_cell(c_out, cell, opts) if mode != "nostd" else None
+                    if exp is None:
+                        if got != cell:
+                            return False, f"cell {c_out}[{r}] changed from {cell!r} to {got!r}"
+                    elif fake:
+                        want = (exp[0], (), tuple(sorted(exp[1].items())))
+                        if got != want:
+                            return False, f"cell {c_out}[{r}]: tidytcells call {got!r}, documented call {want!r}"
         return True, ""
     return replay
 
